@@ -24,14 +24,16 @@ CONSTANTS BUDGET,          \* how many fields may deviate from the normal messag
           DEV_SliceFilename \* pinned code: name[1:len(name)-1] panics for short filename parameters
 
 (* ---- classes ---- *)
-CTypes   == {"absent", "plain", "html", "mixed", "related", "alternative", "other", "unparsable"}
+CTypes   == {"absent", "plain", "html", "mixed", "related", "alternative", "other", "unparsable",
+             "plainlq", "plainqs", "plainempty"}    \* text/plain with a damaged charset parameter: lone quote, quoted ";...", empty
 Bounds   == {"ok", "absent", "empty", "mismatch"}
 CTEs     == {"absent", "7bit", "8bit", "qp", "b64", "unknown", "b64garbage"}
 Addrs    == {"ok", "bad", "absent", "emptygroup"}
 Dates    == {"ok", "bad", "absent"}
 PTypes   == {"plain", "html", "related", "alternative", "mixed", "noctype", "other", "twoctypes"}
 Disps    == {"absent", "attachment", "inline", "other", "empty"}
-FNames   == {"absent", "quoted", "unquoted2", "unquoted1", "empty", "quoteonly", "unterminated", "dup", "encoded"}
+FNames   == {"absent", "quoted", "unquoted2", "unquoted1", "empty", "quoteonly", "unterminated", "dup", "encoded",
+             "sizeneg", "sizehuge", "sizeok"}       \* a size parameter next to the file name: negative, absurdly large, plausible
 Truncs   == {"none", "header", "boundary", "body", "noclose"}
 
 NormalPart == [ptype |-> "plain", disp |-> "absent", fname |-> "absent", cid |-> FALSE, cte |-> "qp", sub |-> 0]
@@ -97,6 +99,8 @@ Body == pc = "body" /\
   CASE t.ctype = "unparsable" -> Finish("err")
     [] t.ctype = "other" -> Finish("err")
     [] t.ctype \in {"absent", "plain", "html"} -> Goto("plain")
+    \* a damaged charset parameter: the media type may or may not be accepted - only totality is required
+    [] t.ctype \in {"plainlq", "plainqs", "plainempty"} -> Finish("any")
     [] OTHER -> IF t.boundary = "absent" THEN Finish("err") ELSE Goto("nextpart")
 
 (* parseEMLBodyPlain *)
